@@ -50,6 +50,9 @@ pub enum Dev {
     AmountTooLarge,
     Truncated(u8),
     Padded(u8),
+    /// any byte-level mutation of the conforming payload that makes it a non-canonical encoding
+    /// (dirty type word / padding, shifted offsets, altered lengths, ...); the mutated payload is what is approved
+    Mutated(super::c10::Mutation),
 }
 
 const DEVS: [Dev; 17] = [
@@ -90,6 +93,7 @@ fn dev() -> impl Strategy<Value = Dev> {
         17 => prop::sample::select(DEVS.to_vec()),
         1 => (1u8..64).prop_map(Dev::Truncated),
         1 => (1u8..64).prop_map(Dev::Padded),
+        8 => super::c10::mutation().prop_map(Dev::Mutated),
     ]
 }
 
@@ -108,7 +112,7 @@ impl Property for C04 {
         "C04"
     }
     fn rule(&self) -> &'static str {
-        "proptest single cases: world = gateway + gas service + ITS (current-source token injected natively) with one ITS-deployed token, one registered canonical token with 500 in custody, an executable probe; a trusted-chain history of 0-6 set/remove operations over 3 chains; a conforming delivery (ReceiveFromHub wrapping a mint / a release / a transfer with data / a deploy with or without minter) and at most one deviation from the statement's list (never approved; approved with other payload / id / source address / destination; already executed; source chain not the hub; source address not the hub address; SendToHub wrapper; raw inner message; inner type 2; origin never trusted / removed again; unknown token; undecodable recipient or minter; amount 2^127; truncated / padded payload). Oracle: effects (exact balance / custody / registry delta, gateway status executed, second delivery refused) iff no deviation; otherwise execute fails and the ledger snapshot is identical (approval still approved, not executed). non-trivial = a deviation is present, or the trust history contains a removal; distinct by Debug hash"
+        "proptest single cases: world = gateway + gas service + ITS (current-source token injected natively) with one ITS-deployed token, one registered canonical token with 500 in custody, an executable probe; a trusted-chain history of 0-6 set/remove operations over 3 chains; a conforming delivery (ReceiveFromHub wrapping a mint / a release / a transfer with data / a deploy with or without minter) and at most one deviation from the statement's list (never approved; approved with other payload / id / source address / destination; already executed; source chain not the hub; source address not the hub address; SendToHub wrapper; raw inner message; inner type 2; origin never trusted / removed again; unknown token; undecodable recipient or minter; amount 2^127; truncated / padded payload; any byte-level mutation - bit flip, dirty type word or padding, shifted offset, altered length - that leaves a non-canonical encoding). Oracle: effects (exact balance / custody / registry delta, gateway status executed, second delivery refused) iff no deviation; otherwise execute fails and the ledger snapshot is identical (approval still approved, not executed). non-trivial = a deviation is present, or the trust history contains a removal; distinct by Debug hash"
     }
     fn cases(&self, tier: Tier) -> u64 {
         tier.pick(6000, 100000)
@@ -124,6 +128,9 @@ impl Property for C04 {
             v.push(Case { trust_history: vec![], origin: 0, kind: k, amount: 5, data_len: 4, seed: 1, dev: Dev::None });
             for d in DEVS {
                 v.push(Case { trust_history: vec![], origin: 0, kind: k, amount: 5, data_len: 4, seed: 1, dev: d });
+            }
+            for m in [super::c10::Mutation::DirtyHigh(0, 0), super::c10::Mutation::DirtyHigh(0, 23), super::c10::Mutation::DirtyTail(3), super::c10::Mutation::WordAdd(1, 32)] {
+                v.push(Case { trust_history: vec![], origin: 0, kind: k, amount: 5, data_len: 4, seed: 1, dev: Dev::Mutated(m) });
             }
         }
         v
@@ -231,6 +238,14 @@ impl Property for C04 {
                 payload.truncate(payload.len() - k);
             }
             Dev::Padded(k) => payload.extend(std::iter::repeat(0u8).take(k as usize)),
+            Dev::Mutated(m) => {
+                super::c10::apply(&mut payload, &m);
+                if crate::oracle::decode_hub_canonical(&payload).is_some() {
+                    // still a canonical encoding (of some other message): not a deviation this check can predict
+                    cx.count("mutation_still_canonical_skipped");
+                    return Ok(());
+                }
+            }
             _ => {}
         }
         let source_chain = if dev == Dev::SourceChainNotHub { origin } else { HUB_CHAIN };
